@@ -259,7 +259,35 @@ func (schemaStream) Execute(c Case) {
 			o["readAndValidate"] = verdictOf(func() error { _, err := schema.ReadAndValidate(bytes.NewReader(jsonText)); return err })
 			obs[name] = o
 		}
+		// accessor / constructor forms: Set/Get, WithSchema, WithNamedSchema, WithDefaultSchema
+		aux := []any{}
+		for name, x := range map[string]*schema.Schema{"builtin": schema.BuiltinSchema(), "none": none, "nil": nil} {
+			schema.Set(x)
+			if schema.Get() != x {
+				aux = append(aux, "schema.Get() does not return what schema.Set("+name+") installed")
+			}
+			if schema.WithSchema(x) != x {
+				aux = append(aux, "schema.WithSchema("+name+") is not the identity")
+			}
+		}
 		schema.Set(schema.BuiltinSchema())
+		want := verdictOf(func() error { return schema.BuiltinSchema().ValidateData(jsonText) })
+		for name, x := range map[string]*schema.Schema{"WithNamedSchema(builtin)": schema.WithNamedSchema("builtin"), "WithDefaultSchema()": schema.WithDefaultSchema()} {
+			x := x
+			if _, err := os.Stat(schema.DefaultExternalSchema); err == nil && name == "WithDefaultSchema()" {
+				continue // an external default schema is installed on this machine: not the builtin one
+			}
+			if got := verdictOf(func() error { return x.ValidateData(jsonText) }); got != want {
+				aux = append(aux, fmt.Sprintf("%s gives %s, the builtin schema %s", name, got, want))
+			}
+		}
+		for name, x := range map[string]*schema.Schema{"WithNamedSchema(none)": schema.WithNamedSchema("none"), "WithNamedSchema(<missing file>)": schema.WithNamedSchema(filepath.Join(schemaRoot, "no-such-schema.json"))} {
+			x := x
+			if got := verdictOf(func() error { return x.ValidateData(jsonText) }); got != "ok" && obs["none"].(map[string]any)["dataJson"] == "ok" {
+				aux = append(aux, fmt.Sprintf("%s gives %s on a document the none schema accepts", name, got))
+			}
+		}
+		obs["aux"] = aux
 	case "typed":
 		s := protoToSpec(c["spec"])
 		for _, k := range []string{"typed", "fileJson", "fileYaml", "readWithValidator", "writeWithValidator"} {
@@ -276,6 +304,21 @@ func (schemaStream) Execute(c Case) {
 			return // the validator lock is gone for good in this process
 		}
 		obs["typed"] = verdictOf(func() error { return b.Validate(s) })
+		aux := []any{}
+		schema.Set(b)
+		if got := verdictOf(func() error { return schema.ValidateType(s) }); got != obs["typed"] {
+			aux = append(aux, fmt.Sprintf("package-level ValidateType gives %s, Schema.Validate %v", got, obs["typed"]))
+		}
+		if got := verdictOf(func() error { return b.ValidateType(s) }); got != obs["typed"] {
+			aux = append(aux, fmt.Sprintf("Schema.ValidateType gives %s, Schema.Validate %v", got, obs["typed"]))
+		}
+		if got := verdictOf(func() error { return (*schema.Schema)(nil).Validate(s) }); got != "ok" {
+			aux = append(aux, "a nil schema rejects an in-memory Spec: "+got)
+		}
+		if got := verdictOf(func() error { return schema.NopSchema().Validate(s) }); got != "ok" {
+			aux = append(aux, "the no-op schema rejects an in-memory Spec: "+got)
+		}
+		obs["aux"] = aux
 		// files the library writes for it
 		dir := filepath.Join(schemaRoot, "w")
 		cache, _ := cdi.NewCache(cdi.WithSpecDirs(dir), cdi.WithAutoRefresh(false))
